@@ -113,10 +113,12 @@ structure TMeta where
   transposed : Bool
   strict : Bool
 
-/-- `df.dtypes` (labels and dtype names) and `df.empty`, as kept in `_last_dataframe_state/_empty` -/
+/-- `df.dtypes` (labels and dtype names), `df.empty` and `metadata.strict_types`, as kept in
+    `_last_dataframe_state` / `_last_dataframe_empty` / `_last_strict_types` -/
 structure FrameState where
   cols : List (Label × Str)
   empty : Bool
+  strict : Bool             -- `_last_strict_types`: the strictness the register was validated under
   deriving DecidableEq, Repr
 
 /-- `ComplementaryTableInfo(metadata, columns)` + the remembered dataframe state -/
@@ -141,7 +143,8 @@ structure Frame where
   empty : Bool
 
 def Frame.labels (fr : Frame) : List Label := fr.cols.map (·.1)
-def Frame.state (fr : Frame) : FrameState := ⟨fr.cols.map (fun c => (c.1, c.2.1)), fr.empty⟩
+def Frame.state (fr : Frame) (strict : Bool) : FrameState :=
+  ⟨fr.cols.map (fun c => (c.1, c.2.1)), fr.empty, strict⟩
 
 /-! ## Small helpers -/
 
@@ -423,15 +426,19 @@ def updateColumns (h : Heap) (inf : Info) (fr : Frame) : Except Err Heap :=
           let ordered := fr.labels.filterMap (fun l => (assoc acc l).map (fun r => (l, r)))
           .ok { h1 with dicts := h1.dicts.write inf.cols ordered }
 
-/-- `info._check_dataframe(df)` -/
+/-- `info._check_dataframe(df)`: nothing to do when frame state and strictness are the remembered
+    ones; otherwise `_update_columns`, and only after it succeeded the new state is remembered -/
 def checkDataframe (h : Heap) (i : Ref) (fr : Frame) : Except Err Heap :=
   match getInfo h i with
   | .error e => .error e
   | .ok inf =>
-    if inf.last = some fr.state then .ok h
-    else match updateColumns h inf fr with
-      | .error e => .error e
-      | .ok h1 => .ok { h1 with infos := h1.infos.write i ⟨inf.tmeta, inf.cols, some fr.state⟩ }
+    match getTMeta h inf.tmeta with
+    | .error e => .error e
+    | .ok tm =>
+      if inf.last = some (fr.state tm.strict) then .ok h
+      else match updateColumns h inf fr with
+        | .error e => .error e
+        | .ok h1 => .ok { h1 with infos := h1.infos.write i ⟨inf.tmeta, inf.cols, some (fr.state tm.strict)⟩ }
 
 /-! ## `TableDataFrame.__finalize__` -/
 
@@ -519,12 +526,15 @@ inductive Mut
   | addColumn (col : Label) (u : Str)      -- `Table(df).add_column(col, values, unit=u)` (metadata part)
   | setDispUnit (col : Label) (u : Str)    -- `Table(df).column_metadata[col].display_unit = u`
   | setFmt (col : Label) (spec : Str)      -- `….display_format.specifier = spec` (no-op when there is no format)
+  | consult (fr : Frame)                   -- any read access after the frame itself was changed in place
+                                           -- (`del df[c]`, columns re-ordered, …): `get_table_info(df)`
 
 def mutate (h : Heap) (i : Ref) (mu : Mut) : Except Err Heap :=
   match getInfo h i with
   | .error e => .error e
   | .ok inf =>
   match mu with
+  | .consult fr => checkDataframe h i fr
   | .setName n =>
     match getTMeta h inf.tmeta with
     | .error e => .error e
@@ -567,9 +577,12 @@ def mutate (h : Heap) (i : Ref) (mu : Mut) : Except Err Heap :=
     | .ok es =>
       let (sc, r) := h.cols.alloc ⟨u, none, none⟩     -- `new_col = ColumnMetadata(unit=unit)`
       let h1 := { h with cols := sc }
-      match assoc es l with
-      | none => .ok { h1 with dicts := h1.dicts.write inf.cols (es ++ [(l, r)]) }
-      | some old => updateFrom h1 old ⟨u, none, none⟩
+      match (match assoc es l with
+             | none => Except.ok { h1 with dicts := h1.dicts.write inf.cols (es ++ [(l, r)]) }
+             | some old => updateFrom h1 old ⟨u, none, none⟩) with
+      | .error e => .error e
+      -- the register was edited without validation: `table_info._last_dataframe_state = None`
+      | .ok h2 => .ok { h2 with infos := h2.infos.write i ⟨inf.tmeta, inf.cols, none⟩ }
 
 def mutateAll (h : Heap) (i : Ref) : List Mut → Except Err Heap
   | [] => .ok h
